@@ -17,10 +17,18 @@ import itertools
 import z3
 
 from .values import (SArr, SBag, SExc, SFunc, SObj, SSeq, SSlice, SStr, Unsupported, coerce2,
-                     concrete, is_bool, is_intlike, is_num, is_reallike, is_z3, num_term,
-                     to_bool, to_z3)
+                     concrete, is_bool, is_intlike, is_num, is_reallike, is_z3, num_term, snap,
+                     snap_finite, to_bool, to_z3)
 
 _fresh = itertools.count()
+
+
+class _Nan:
+    def __repr__(self):
+        return 'NAN'
+
+
+NAN = _Nan()
 
 
 def fresh(name, sort='int'):
@@ -98,10 +106,11 @@ def _clone(v, memo):
         if id(v) in memo:
             return memo[id(v)]
         o = ArrStore(v.shape, v.fn, v.kind, v.name)
+        o.finite = v.finite
         memo[id(v)] = o
         return o
     if isinstance(v, SArr) and v.store is not None:
-        return SArr(v.shape, v.fn, v.kind, _clone(v.store, memo), v.off)
+        return SArr(v.shape, None, v.kind, _clone(v.store, memo), v.off, v.keep)
     return v
 
 
@@ -113,15 +122,11 @@ class ArrStore:
         self.fn = fn
         self.kind = kind
         self.name = name
+        self.finite = None    # per-element finiteness predicate (None = all finite)
 
 
 def view_of(store, off=None, shape=None):
-    off = tuple(off) if off is not None else tuple(0 for _ in store.shape)
-    shape = tuple(shape) if shape is not None else store.shape
-
-    def fn(idx, store=store, off=off):
-        return store.fn(tuple(i + o for i, o in zip(idx, off)))
-    return SArr(shape, fn, store.kind, store, off)
+    return SArr(shape if shape is not None else store.shape, None, store.kind, store, off)
 
 
 class Executor:
@@ -257,8 +262,9 @@ class Executor:
             cur = None
             if isinstance(node.target, ast.Name):
                 cur = s2.env.get(node.target.id)
-            if isinstance(cur, SArr) and cur.store is not None:
-                # in-place arithmetic writes through the view
+            if isinstance(cur, SArr) and isinstance(node.target, ast.Name):
+                # in-place arithmetic: writes through the array's memory (aliases see it)
+                cur = self.own_store(node.target.id, s2)
                 self.write_arr(cur, None, v, s2)
             else:
                 self.assign(node.target, v, s2)
@@ -292,6 +298,8 @@ class Executor:
                     raise Unsupported('symbolic list/dict store index')
                 obj[k] = v
             elif isinstance(obj, SArr):
+                if obj.store is None and isinstance(tgt.value, ast.Name):
+                    obj = self.own_store(tgt.value.id, st)
                 idx = self.eval_index(tgt.slice, st)
                 self.write_arr(obj, idx, v, st)
             elif isinstance(obj, SObj) and obj.cls == '__dict__':
@@ -567,8 +575,10 @@ class Executor:
         return out
 
     def unop(self, op, v):
+        if isinstance(v, SBag):
+            return SBag(v.shape, v.pred, lambda p, f=v.val: self.unop(op, f(p)), v.kind)
         if isinstance(v, SArr):
-            return SArr(v.shape, lambda idx, f=v.fn: self.unop(op, f(idx)),
+            return SArr(v.shape, lambda idx, f=snap(v): self.unop(op, f(idx)),
                         'bool' if isinstance(op, (ast.Not, ast.Invert)) and v.kind == 'bool'
                         else v.kind)
         if isinstance(v, SSeq):
@@ -602,7 +612,7 @@ class Executor:
             return a + b
         if isinstance(op, ast.Mult) and isinstance(a, (tuple, list)) and isinstance(b, int):
             return a * b
-        if isinstance(a, (SArr, SSeq)) or isinstance(b, (SArr, SSeq)):
+        if isinstance(a, (SArr, SSeq, SBag)) or isinstance(b, (SArr, SSeq, SBag)):
             return self.lift2(lambda x, y: self.binop(op, x, y, st), a, b, op)
         if isinstance(a, SStr) or isinstance(b, SStr) or isinstance(a, str) or isinstance(b, str):
             if isinstance(op, (ast.Add, ast.Mod)):
@@ -667,6 +677,18 @@ class Executor:
         raise Unsupported(f'binary {type(op).__name__}')
 
     def lift2(self, f, a, b, op=None):
+        if isinstance(a, SBag) or isinstance(b, SBag):
+            bag = a if isinstance(a, SBag) else b
+            other = b if isinstance(a, SBag) else a
+            if isinstance(a, SBag) and isinstance(b, SBag):
+                if a.pred is not b.pred:
+                    raise Unsupported('arithmetic on bags selected by different masks')
+                return SBag(a.shape, a.pred, lambda p: f(a.val(p), b.val(p)), 'real')
+            if isinstance(other, (SArr, SSeq)):
+                raise Unsupported('bag combined with a full array')
+            if bag is a:
+                return SBag(bag.shape, bag.pred, lambda p: f(bag.val(p), other), 'real')
+            return SBag(bag.shape, bag.pred, lambda p: f(other, bag.val(p)), 'real')
         kind = None
         if isinstance(op, (ast.Div,)):
             kind = 'real'
@@ -694,13 +716,16 @@ class Executor:
         nd = max(len(sa), len(sb))
         shape = sa if len(sa) == nd else sb   # same-shape or scalar broadcast only
 
-        def el(v, idx):
-            if not isinstance(v, SArr):
+        fa = snap(a) if isinstance(a, SArr) else None
+        fb = snap(b) if isinstance(b, SArr) else None
+
+        def el(v, fv, idx):
+            if fv is None:
                 return v
             if v.ndim == nd:
-                return v.fn(idx)
-            return v.fn(idx[nd - v.ndim:])     # trailing-axis broadcast
-        return SArr(shape, lambda idx: f(el(a, idx), el(b, idx)), kind)
+                return fv(idx)
+            return fv(idx[nd - v.ndim:])     # trailing-axis broadcast
+        return SArr(shape, lambda idx: f(el(a, fa, idx), el(b, fb, idx)), kind)
 
     def ex_Compare(self, node, st):
         out = []
@@ -817,6 +842,14 @@ class Executor:
                 return [(st, ('bound', v, attr))]
             raise Unsupported(f'unknown attribute {v.cls}.{attr}')
         if isinstance(v, tuple) and len(v) == 2 and v[0] == 'global':
+            if f'{v[1]}.{attr}' in ('np.pi', 'math.pi', 'numpy.pi'):
+                pi = z3.Real('pi')
+                st.fact(z3.And(pi > z3.RealVal('3.14159'), pi < z3.RealVal('3.1416')))
+                return [(st, pi)]
+            if f'{v[1]}.{attr}' in ('np.nan', 'math.nan', 'numpy.nan'):
+                return [(st, NAN)]
+            if f'{v[1]}.{attr}' in ('np.inf', 'math.inf'):
+                raise Unsupported('infinity constant')
             return [(st, ('global', f'{v[1]}.{attr}'))]
         if isinstance(v, tuple) and len(v) == 2 and v[0] == 'class':
             if attr == '__name__':
@@ -833,8 +866,9 @@ class Executor:
                     n = self.binop(ast.Mult(), n, d, st)
                 return [(st, n)]
             if attr == 'T' and v.ndim == 2:
+                # NOTE: a transposed view is modelled as a value (reads only)
                 return [(st, SArr((v.shape[1], v.shape[0]),
-                                  lambda idx, f=v.fn: f((idx[1], idx[0])), v.kind))]
+                                  lambda idx, f=snap(v): f((idx[1], idx[0])), v.kind))]
             if attr in ('sum', 'any', 'all', 'copy', 'astype', 'min', 'max', 'ravel'):
                 return [(st, ('arrmethod', v, attr))]
         if isinstance(v, SSeq):
@@ -931,7 +965,10 @@ class Executor:
         """Basic indexing (ints and slices) -> element or view; boolean mask -> bag."""
         if len(idx) == 1 and isinstance(idx[0], SArr) and idx[0].kind == 'bool':
             m = idx[0]
-            return SBag(a.shape, m.fn, a.fn, a.kind)
+            mf = snap(m)
+            bag = SBag(a.shape, mf, snap(a), a.kind)
+            bag.mask_id = id(m)
+            return bag
         if len(idx) == 1 and isinstance(idx[0], tuple):
             idx = idx[0]
         if len(idx) > a.ndim:
@@ -945,6 +982,7 @@ class Executor:
                 lo = 0 if k.start is None else self._norm_bound(k.start, n)
                 hi = n if k.stop is None else self._norm_bound(k.stop, n)
                 lo_t, hi_t = num_term(lo), num_term(hi)
+                # numpy clips slice bounds silently: modelled exactly
                 lo_c = z3.simplify(z3.If(lo_t < 0, 0, z3.If(lo_t > n, n, lo_t)))
                 hi_c = z3.simplify(z3.If(hi_t < 0, 0, z3.If(hi_t > n, n, hi_t)))
                 offs.append(lo_c)
@@ -967,88 +1005,109 @@ class Executor:
             keep.append(True)
         if not any(keep):
             return a.fn(tuple(offs))
+        if a.store is not None:
+            # compose with the view: dims of `a` are the kept dims of its store
+            noff, nkeep = list(a.off), list(a.keep)
+            k = 0
+            for d in range(len(a.off)):
+                if a.keep[d]:
+                    noff[d] = z3.simplify(num_term(a.off[d]) + num_term(offs[k]))
+                    nkeep[d] = keep[k]
+                    k += 1
+            return SArr(shape, None, a.kind, a.store, noff, nkeep)
+        f0 = a._fn
 
-        def fn(j, a=a, offs=tuple(offs), keep=tuple(keep)):
+        def fn(j, f0=f0, offs=tuple(offs), keep=tuple(keep)):
             it = iter(j)
             full = tuple((num_term(next(it)) + o) if kp else o for o, kp in zip(offs, keep))
-            return a.fn(full)
-        out = SArr(shape, fn, a.kind)
-        if a.store is not None:
-            base = a.off or tuple(0 for _ in a.shape)
-            if all(keep):
-                out.store = a.store
-                out.off = tuple(b + o for b, o in zip(base, offs))
-            else:
-                out.store = None  # dimension-dropping views: treated as value (reads only)
-                out.viewdrop = (a, tuple(offs), tuple(keep))
-        return out
+            return f0(full)
+        return SArr(shape, fn, a.kind)
+
+    def own_store(self, name, st):
+        """Give a value array bound to a local name an identity so it can be written in place."""
+        v = st.env.get(name)
+        if isinstance(v, SArr) and v.store is None:
+            store = ArrStore(v.shape, v._fn, v.kind, name)
+            store.finite = getattr(v, 'finite', None)
+            nv = view_of(store)
+            st.env[name] = nv
+            return nv
+        return v
 
     def write_arr(self, a, idx, v, st):
         """In-place store a[idx] = v through the store of ``a`` (aliasing preserved)."""
         if a.store is None:
-            # a fresh (value) array bound to a local name: give it a store now
             raise Unsupported('in-place write to an array without identity')
         store = a.store
-        base = a.off or tuple(0 for _ in a.shape)
         old = store.fn
-        if idx is None:
-            # whole-array update (augmented assignment): v has a's shape
-            def inside(p):
-                return z3.And(*[z3.And(num_term(pi) >= b, num_term(pi) < b + num_term(n))
-                                for pi, b, n in zip(p, base, a.shape)])
-
-            def newv(p):
-                loc = tuple(num_term(pi) - b for pi, b in zip(p, base))
-                return v.fn(loc) if isinstance(v, SArr) else v
-        elif len(idx) == 1 and isinstance(idx[0], SArr) and idx[0].kind == 'bool':
-            m = idx[0]
-
-            def inside(p):
-                loc = tuple(num_term(pi) - b for pi, b in zip(p, base))
-                return z3.And(*[z3.And(num_term(pi) >= b, num_term(pi) < b + num_term(n))
-                                for pi, b, n in zip(p, base, a.shape)],
-                              to_bool(m.fn(loc)))
-
-            def newv(p):
-                if isinstance(v, (SArr, SBag)):
-                    raise Unsupported('masked store of an array value')
-                return v
-        else:
+        oldfin = store.finite
+        target = a if idx is None or (len(idx) == 1 and isinstance(idx[0], SArr)
+                                      and idx[0].kind == 'bool') else None
+        mask = None
+        if target is None:
             sub = self.index_arr(a, idx, st)
-            if not isinstance(sub, SArr):
-                # single element store
-                full = []
-                for ax, k in enumerate(idx):
-                    kt = num_term(k)
-                    c = concrete(kt)
-                    if c is not None and c < 0:
-                        kt = num_term(a.shape[ax]) + c
-                    full.append(kt + base[ax])
-                full = tuple(full)
-
-                def inside(p):
-                    return z3.And(*[num_term(pi) == f for pi, f in zip(p, full)])
-
-                def newv(p):
-                    return v
+            if isinstance(sub, SArr):
+                target = sub
             else:
-                if sub.store is not store:
-                    raise Unsupported('store through a dimension-dropping view')
-                sbase = sub.off
+                # single element: build a 0-d "view" by hand
+                tgt_off = []
+                k = 0
+                for d in range(len(a.off)):
+                    if a.keep[d]:
+                        kt = num_term(idx[k])
+                        c = concrete(kt)
+                        if c is not None and c < 0:
+                            kt = num_term(a.shape[k]) + c
+                        tgt_off.append(z3.simplify(num_term(a.off[d]) + kt))
+                        k += 1
+                    else:
+                        tgt_off.append(a.off[d])
+                target = SArr((), None, a.kind, store, tgt_off, [False] * len(tgt_off))
+        elif idx is not None:
+            mask = snap(idx[0])
+        toff, tkeep, tshape = target.off, target.keep, target.shape
 
-                def inside(p):
-                    return z3.And(*[z3.And(num_term(pi) >= b, num_term(pi) < b + num_term(n))
-                                    for pi, b, n in zip(p, sbase, sub.shape)])
+        def local(p):
+            return tuple(num_term(pd) - num_term(o) for pd, o, kp in zip(p, toff, tkeep) if kp)
 
-                def newv(p):
-                    loc = tuple(num_term(pi) - b for pi, b in zip(p, sbase))
-                    return v.fn(loc) if isinstance(v, SArr) else v
+        def inside(p):
+            cs = []
+            k = 0
+            for pd, o, kp in zip(p, toff, tkeep):
+                if kp:
+                    cs.append(z3.And(num_term(pd) >= num_term(o),
+                                     num_term(pd) < num_term(o) + num_term(tshape[k])))
+                    k += 1
+                else:
+                    cs.append(num_term(pd) == num_term(o))
+            if mask is not None:
+                cs.append(to_bool(mask(local(p))))
+            return z3.And(*cs) if cs else z3.BoolVal(True)
+        vf = None
+        if isinstance(v, SArr):
+            vf = snap(v)
+            vfin = snap_finite(v)
+        elif isinstance(v, SBag):
+            if mask is None or getattr(v, 'mask_id', None) != id(idx[0]):
+                raise Unsupported('masked store of a bag selected by a different mask')
+            vf = v.val
+            vfin = None
 
-        def fn(p, old=old):
-            nv = newv(p)
-            ov = old(p)
-            return self.ite(inside(p), nv, ov)
-        store.fn = fn
+        def newv(p):
+            if vf is not None:
+                return vf(local(p))
+            return v
+        if v is NAN:
+            # value becomes non-finite: the numeric value is irrelevant, finiteness flips
+            fin0 = oldfin or (lambda p: z3.BoolVal(True))
+            store.finite = lambda p, fin0=fin0: z3.And(z3.Not(inside(p)), to_bool(fin0(p)))
+            return
+        store.fn = lambda p, old=old: self.ite(inside(p), newv(p), old(p))
+        if oldfin is not None:
+            if vf is not None and isinstance(v, SArr) and vfin is not None:
+                store.finite = lambda p: self.ite(inside(p), vfin(local(p)), oldfin(p))
+            else:
+                store.finite = lambda p: z3.Or(inside(p), to_bool(oldfin(p)))
 
     def ite(self, c, a, b):
         c = z3.simplify(to_bool(c))
@@ -1145,6 +1204,8 @@ class Executor:
         from . import prims
         if isinstance(fv, SFunc):
             return [(st, fv.fn(*args, **kwargs))]
+        if isinstance(fv, SObj) and fv.cls.startswith('callable:'):
+            return [(st, SObj('applied:' + fv.cls[9:], {'fn': fv, 'args': tuple(args)}))]
         if isinstance(fv, tuple) and fv and fv[0] == 'listmethod':
             return [(st, prims.list_method(self, fv[1], fv[2], args, st))]
         if isinstance(fv, tuple) and fv and fv[0] == 'dictmethod':
@@ -1156,7 +1217,7 @@ class Executor:
             c = self.registry.lookup_method(obj.cls, meth)
             return self.apply_contract(c, [obj] + list(args), kwargs, st)
         if isinstance(fv, tuple) and fv and fv[0] == 'localdef':
-            raise Unsupported('call of nested function')
+            return self.call_local(fv[1], args, kwargs, st)
         name = fv[1] if isinstance(fv, tuple) and fv and fv[0] == 'global' else fname
         if isinstance(fv, tuple) and fv and fv[0] == 'class':
             name = fv[1]
@@ -1173,6 +1234,34 @@ class Executor:
         if c is not None:
             return self.apply_contract(c, args, kwargs, st)
         raise Unsupported(f'call to {name!r} (no primitive and no contract)')
+
+    def call_local(self, fnode, args, kwargs, st):
+        """Call of a function defined inside the function under verification: its body is part
+        of the verified text, so it is executed (not abstracted); locals do not leak."""
+        saved = dict(st.env)
+        names = [a.arg for a in fnode.args.args]
+        if len(args) > len(names) or fnode.args.vararg or fnode.args.kwarg:
+            raise Unsupported('nested function call signature')
+        for n, a in zip(names, args):
+            st.env[n] = a
+        for k, v in kwargs.items():
+            st.env[k] = v
+        outs = []
+        for s2, oc in self.exec_block(fnode.body, st):
+            local = set(s2.env) - set(saved)
+            for k in list(s2.env):
+                if k in saved:
+                    # assignments inside the nested function are local unless declared nonlocal
+                    pass
+            env_after = dict(saved)
+            s2.env = env_after
+            if oc[0] == 'raise':
+                outs.append(((s2, oc), None))
+            elif oc[0] == 'return':
+                outs.append((s2, oc[1]))
+            else:
+                outs.append((s2, None))
+        return outs
 
     def apply_contract(self, c, args, kwargs, st):
         """Modular call: assert requires, havoc result, assume ensures (callee body not used)."""
